@@ -291,3 +291,54 @@ func fontWF(f *Font) bool {
 
 //@ func (*Font).makeTemplateData
 //@ requires opt != nil
+
+// ---------------------------------------------------------------------
+// C19: query methods
+
+//@ func (*Font).NumGlyphs
+//@ safety C19
+//@ ensures [C19.num] (has(f.Glyphs, ".notdef") ==> result == len(f.Glyphs)) && (!has(f.Glyphs, ".notdef") ==> result == len(f.Glyphs) + 1)
+
+//@ func (*Font).GlyphList
+//@ safety C19
+//@ ensures [C19.list.len] len(result) == f.NumGlyphs()
+//@ loop 1 invariant f != nil && order != nil
+//@ loop 2 invariant f != nil && order != nil
+
+//@ func (*Font).GlyphList$1
+//@ requires 0 <= i && i < len(glyphNames) && 0 <= j && j < len(glyphNames)
+
+func hasPoint(c GlyphOp) bool {
+	return c.Op == OpMoveTo || c.Op == OpLineTo || c.Op == OpCurveTo
+}
+
+func endX(c GlyphOp) float64 {
+	if c.Op == OpCurveTo {
+		return c.Args[4]
+	}
+	return c.Args[0]
+}
+
+func endY(c GlyphOp) float64 {
+	if c.Op == OpCurveTo {
+		return c.Args[5]
+	}
+	return c.Args[1]
+}
+
+//@ define inBox(g, n, l, b, r, t) = forall k :: 0 <= k && k < n && hasPoint(g.Cmds[k]) ==> l <= endX(g.Cmds[k]) && endX(g.Cmds[k]) <= r && b <= endY(g.Cmds[k]) && endY(g.Cmds[k]) <= t
+//@ define touchesBox(g, n, l, b, r, t) = (exists k :: 0 <= k && k < n && hasPoint(g.Cmds[k]) && endX(g.Cmds[k]) == l) && (exists k :: 0 <= k && k < n && hasPoint(g.Cmds[k]) && endX(g.Cmds[k]) == r) && (exists k :: 0 <= k && k < n && hasPoint(g.Cmds[k]) && endY(g.Cmds[k]) == b) && (exists k :: 0 <= k && k < n && hasPoint(g.Cmds[k]) && endY(g.Cmds[k]) == t)
+//@ define noPoints(g, n) = forall k :: 0 <= k && k < n ==> !hasPoint(g.Cmds[k])
+
+//@ func (*Glyph).BBox
+//@ safety C19
+//@ requires g != nil
+//@ ensures [C19.bbox.contains] inBox(g, len(g.Cmds), result.LLx, result.LLy, result.URx, result.URy)
+//@ ensures [C19.bbox.tight] !noPoints(g, len(g.Cmds)) ==> touchesBox(g, len(g.Cmds), result.LLx, result.LLy, result.URx, result.URy)
+//@ ensures [C19.bbox.empty] noPoints(g, len(g.Cmds)) ==> result.LLx == 0 && result.LLy == 0 && result.URx == 0 && result.URy == 0
+//@ loop 1 invariant [C19.bbox] g != nil && (first ==> noPoints(g, rangeidx) && left == 0 && right == 0 && top == 0 && bottom == 0) && (!first ==> !noPoints(g, rangeidx) && inBox(g, rangeidx, left, bottom, right, top) && touchesBox(g, rangeidx, left, bottom, right, top))
+
+//@ func (*Font).GlyphWidthPDF
+//@ safety C19
+//@ requires f != nil && f.FontInfo != nil
+//@ ensures [C19.width.absent] !has(f.Glyphs, name) && !has(f.Glyphs, ".notdef") ==> result == 0
